@@ -172,10 +172,13 @@ def apply_consts(data):
     missing = [n for n in base if n not in have]
     new = [n for n in have if n not in base and have[n].get("vis") not in ("pub", "public")]
     ren = {}
+    def users(name):
+        needle = json.dumps(name)
+        return sorted(set(b["def"] for b in data["bodies"] if needle in json.dumps(b)))
     for o in missing:
-        ty, val = base[o]
+        ty, val = base[o][:2]
         cn = [n for n in new if parent(n) == parent(o) and have[n].get("ty") == ty and have[n].get("value") == val and val is not None]
-        co = [x for x in missing if parent(x) == parent(o) and base[x] == [ty, val]]
+        co = [x for x in missing if parent(x) == parent(o) and base[x][:2] == [ty, val]]
         if len(cn) == 1 and len(co) == 1:
             ren[cn[0]] = o
     # renamed *and* given another value: exactly one constant of the impl is gone and exactly one of that type is new -- read under
@@ -186,7 +189,8 @@ def apply_consts(data):
         ty = base[o][0]
         cn = [n for n in new if n not in ren and parent(n) == parent(o) and have[n].get("ty") == ty]
         co = [x for x in missing if x not in ren.values() and parent(x) == parent(o) and base[x][0] == ty]
-        if len(cn) == 1 and len(co) == 1:
+        # (and the functions that read it are the ones that read the old one: otherwise it is a new constant beside a removed one)
+        if len(cn) == 1 and len(co) == 1 and (len(base[o]) < 3 or users(cn[0]) == base[o][2]):
             ren[cn[0]] = o
     if not ren:
         return {}
@@ -220,10 +224,16 @@ def apply_statics(data):
     missing = [n for n in base if n not in have]
     new = [n for n in have if n not in base]
     ren = {}
+    def users(name):
+        needle = json.dumps(name)
+        return sorted(set(b["def"] for b in data["bodies"] if needle in json.dumps(b)))
     for o in missing:
-        cn = [n for n in new if parent(n) == parent(o) and [have[n]["ty"].get("s"), bool(have[n].get("mut"))] == base[o]]
-        co = [x for x in missing if parent(x) == parent(o) and base[x] == base[o]]
-        if len(cn) == 1 and len(co) == 1:
+        sig = base[o][:2]
+        cn = [n for n in new if parent(n) == parent(o) and [have[n]["ty"].get("s"), bool(have[n].get("mut"))] == sig]
+        co = [x for x in missing if parent(x) == parent(o) and base[x][:2] == sig]
+        # ... and it is used by the functions that used the old one: a new static of the same type that something else reads
+        # (a per-thread tag drawn from a fresh global counter) is another static, not the old one under a new name
+        if len(cn) == 1 and len(co) == 1 and (len(base[o]) < 3 or users(cn[0]) == base[o][2]):
             ren[cn[0]] = o
     if not ren:
         return {}
